@@ -154,6 +154,20 @@ CHECKS["C13"] = dict(
     modelled="OIDC.Authenticated/HandleCallback/state cache/session identity (hand-written state machine); oauth2, go-oidc, gorilla "
              "sessions/securecookie, gob are assumed and exercised only.")
 
+CHECKS["C12"] = dict(
+    text="Theorems over the transcription of getHost/HandleDownload composed with the token, policy and login models: a file is "
+         "issued only to an authenticated session (any other /connect is redirected to the IdP); the target is the requested value "
+         "only in 'any' mode, a configured entry equal to the request in 'unsigned', the subject of a query token that verifies "
+         "(key, issuer, expiry) and is a configured entry in 'signed', a configured entry otherwise; the token's claims are exactly "
+         "(address with the user substituted, user name without domain part when splitting, requesting client address, session "
+         "access token), expiry +300 s; under round-robin/unsigned/any the issued host+token pass the gateway's own cookie check "
+         "and host policy from the same address within the lifetime (hypotheses on the IdP subject stated); forced settings pinned "
+         "from the source. The real binary is driven end to end (login, /connect, independent file reader and token decoder, "
+         "websocket replay from the same and another address).",
+    design="7/C12", technique="Coq proof (composition of download, token and policy models) + real-binary end-to-end correspondence",
+    modelled="getHost, HandleDownload (hand transcription); random picker as environment answer; ServeContent, URL parsing, session "
+             "middleware exercised only; user tokens switched off (C15).")
+
 NOT_YET = {}
 
 
